@@ -171,6 +171,9 @@ class Uploader:
         self.replies: list[tuple[float, Any]] = []
         self.ticket = 5000
         self.active = True
+        self.reset_first = 0           # the first k file connections are reset right after the offset (0 bytes sent)
+        self.retry_offer_lat = None    # offer latency of later attempts (None: same as offer_lat)
+        self.attempts: dict[str, int] = {}
         peer.on_frame = self._on_frame
 
     def _on_frame(self, link: PeerLink, msg):
@@ -182,7 +185,9 @@ class Uploader:
             self.replies.append((self.w.now, msg))
 
     async def _serve(self, link: PeerLink, filename: str):
-        await asyncio.sleep(self.offer_lat)
+        n_attempt = self.attempts.get(filename, 0)
+        self.attempts[filename] = n_attempt + 1
+        await asyncio.sleep(self.offer_lat if n_attempt == 0 or self.retry_offer_lat is None else self.retry_offer_lat)
         self.ticket += 1
         ticket = self.ticket
         data = self.files[filename]
@@ -212,6 +217,9 @@ class Uploader:
         if off is None:
             return
         pos = int.from_bytes(off, 'little')
+        if n_attempt < self.reset_first:
+            f.abort()                  # connection reset before the first byte of the file
+            return
         while pos < len(data):
             if f.writer.is_closing() or f.writer.transport._lost:
                 return
